@@ -63,17 +63,17 @@ def Pc.k : Pc → K
   | .wakeReadState _ _ => .post
   | _ => .other
 
-def K.isHold : K → Bool | .hold | .held => true | _ => false
-def K.isWake : K → Bool | .w | .wNext => true | _ => false
-def K.isPop : K → Bool | .w | .wNext | .post => true | _ => false
+def K.isHold (k : K) : Prop := k = .hold ∨ k = .held
+def K.isWake (k : K) : Prop := k = .w ∨ k = .wNext
+def K.isPop (k : K) : Prop := k = .w ∨ k = .wNext ∨ k = .post
 
-theorem k_isHold (p : Pc) : p.k.isHold = p.isHold := by
+theorem k_isHold (p : Pc) : p.k.isHold ↔ p.isHold = true := by
   cases p <;> simp [Pc.k, K.isHold, Pc.isHold]
   next r => cases r <;> simp
-theorem k_isWake (p : Pc) : p.k.isWake = p.isWake := by
+theorem k_isWake (p : Pc) : p.k.isWake ↔ p.isWake = true := by
   cases p <;> simp [Pc.k, K.isWake, Pc.isWake]
   next r => cases r <;> simp
-theorem k_isPop (p : Pc) : p.k.isPop = p.isPop := by
+theorem k_isPop (p : Pc) : p.k.isPop ↔ p.isPop = true := by
   cases p <;> simp [Pc.k, K.isPop, Pc.isPop, Pc.isWake, Pc.isPost]
   next r => cases r <;> simp
 theorem k_post (p : Pc) : p.k = .post ↔ p.isPost = true := by
@@ -164,15 +164,21 @@ theorem Card.pos_of {P : Nat → Prop} {n : Nat} (h : Card P n) {f : Nat} (hf : 
 
 /-! ### 3. the invariant -/
 
+theorem free_form {o : Option Nat} {W : Nat → Prop} (h : o = none → (∀ f, ¬ W f) → False) :
+    o ≠ none ∨ ∃ f, W f := by
+  by_cases ho : o = none
+  · right; apply Classical.byContradiction; intro hn; exact h ho (fun f hf => hn ⟨f, hf⟩)
+  · left; exact ho
+
 structure Inv (s : St) : Prop where
   /-- whoever is between acquire and release is the ghost owner -/
-  hold_owner : ∀ f, (s.pc f).k.isHold = true → s.owner = some f
+  hold_owner : ∀ f, (s.pc f).k.isHold → s.owner = some f
   /-- the ghost owner is between acquire and release, or was handed the mutex while parked -/
-  owner_hold : ∀ f, s.owner = some f → (s.pc f).k.isHold = true ∨ (s.pc f).k = .parked
+  owner_hold : ∀ f, s.owner = some f → (s.pc f).k.isHold ∨ (s.pc f).k = .parked
   /-- before its pop takes effect a waker sees a free mutex -/
-  wake_free : ∀ f, (s.pc f).k.isWake = true → s.owner = none ∧ s.waking = false
+  wake_free : ∀ f, (s.pc f).k.isWake → s.owner = none ∧ s.waking = false
   /-- single consumer of the waiter queue -/
-  pop_one : ∀ f g, (s.pc f).k.isPop = true → (s.pc g).k.isPop = true → f = g
+  pop_one : ∀ f g, (s.pc f).k.isPop → (s.pc g).k.isPop → f = g
   post_waking : ∀ f, (s.pc f).k = .post → s.waking = true
   waking_owner : s.waking = true → ∃ g, s.owner = some g ∧ (s.pc g).k = .parked
   hd_le : s.hd ≤ s.order.length
@@ -182,14 +188,17 @@ structure Inv (s : St) : Prop where
   q_parked : ∀ f, (s.pc f).k = .parked → s.owner ≠ some f →
     ∃ i n, s.hd ≤ i ∧ s.order[i]? = some (n, f) ∧ s.linked i = true
   q_ent : ∀ i n f, s.hd ≤ i → s.order[i]? = some (n, f) →
-    (s.pc f).k = .xchgd n i ∨ ((s.pc f).k = .parked ∧ s.linked i = true)
+    (s.pc f).k = .xchgd n i ∨ ((s.pc f).k = .parked ∧ s.linked i = true ∧ s.owner ≠ some f)
+  /-- a fiber waits at most once among the entries not yet popped -/
+  q_dist : ∀ i j n n' f, s.hd ≤ i → s.hd ≤ j → s.order[i]? = some (n, f) →
+    s.order[j]? = some (n', f) → i = j
   w_next : ∀ f, (s.pc f).k = .wNext → s.hd < s.order.length ∧ s.linked s.hd = true
   /-- the counting identity -/
   cnt : ∃ n, Card (Ann s) n ∧ s.counter = 1 - (if s.owner = none then 0 else 1) - (n : Int)
   /-- a waker in its loop has somebody to find -/
-  wake_ann : ∀ f, (s.pc f).k.isWake = true → ∃ g, Ann s g
+  wake_ann : ∀ f, (s.pc f).k.isWake → ∃ g, Ann s g
   /-- no stranded waiter -/
-  free : s.owner = none → (∀ f, (s.pc f).k.isWake = false) → ∀ g, ¬ Ann s g
+  free : ∀ g, Ann s g → s.owner ≠ none ∨ ∃ f, (s.pc f).k.isWake
   cs_held : ∀ f, f ∈ s.inCs → (s.pc f).k = .held
   cs_nodup : s.inCs.Nodup
   cs_seen : ∀ f, f ∈ s.inCs → s.seen f = s.data
@@ -197,5 +206,589 @@ structure Inv (s : St) : Prop where
 theorem inv_init (stub : Nat) (nodeOf : Nat → Nat) : Inv (init stub nodeOf) := by
   constructor <;> simp [init, Pc.k, K.isHold, K.isWake, K.isPop, Ann, annK]
   exact ⟨0, Card.zero_iff.2 (by simp [Ann, annK, Pc.k]), by simp⟩
+
+/-! ### 4. preservation, one lemma per event constructor -/
+
+/-- steps that stay inside one pc class and touch none of the fields the invariant reads -/
+theorem Inv.frame {s s' : St} (hi : Inv s)
+    (hk : ∀ f, (s'.pc f).k = (s.pc f).k) (h1 : s'.owner = s.owner) (h2 : s'.waking = s.waking)
+    (h3 : s'.hd = s.hd) (h4 : s'.order = s.order) (h5 : s'.linked = s.linked)
+    (h6 : s'.counter = s.counter) (h7 : s'.inCs = s.inCs) (h8 : s'.seen = s.seen)
+    (h9 : s'.data = s.data) : Inv s' := by
+  have hann : Ann s' = Ann s := by
+    funext f; simp only [Ann, hk, h1]
+  constructor <;> simp only [hk, h1, h2, h3, h4, h5, h6, h7, h8, h9, hann]
+  · exact hi.hold_owner
+  · exact hi.owner_hold
+  · exact hi.wake_free
+  · exact hi.pop_one
+  · exact hi.post_waking
+  · exact hi.waking_owner
+  · exact hi.hd_le
+  · exact hi.lnk_bound
+  · exact hi.q_xchgd
+  · exact hi.q_parked
+  · exact hi.q_ent
+  · exact hi.q_dist
+  · exact hi.w_next
+  · exact hi.cnt
+  · exact hi.wake_ann
+  · exact hi.free
+  · exact hi.cs_held
+  · exact hi.cs_nodup
+  · exact hi.cs_seen
+
+theorem k_upd (pc : Nat → Pc) (f0 : Nat) (p : Pc) (f : Nat) :
+    (upd pc f0 p f).k = if f = f0 then p.k else (pc f).k := by
+  simp only [upd]; split <;> rfl
+
+theorem k_upd_same {pc : Nat → Pc} {f0 : Nat} {p : Pc} (h : p.k = (pc f0).k) (f : Nat) :
+    (upd pc f0 p f).k = (pc f).k := by
+  rw [k_upd]; split
+  · next h' => rw [h', h]
+  · rfl
+
+/-- a step that only moves `f0` inside its pc class -/
+theorem Inv.move {s : St} (hi : Inv s) {f0 : Nat} {p : Pc} (h : p.k = (s.pc f0).k) :
+    Inv { s with pc := upd s.pc f0 p } :=
+  hi.frame (k_upd_same h) rfl rfl rfl rfl rfl rfl rfl rfl rfl
+
+/-- consequences of the counting identity -/
+theorem Inv.counter_le {s : St} (hi : Inv s) : s.counter ≤ 1 := by
+  obtain ⟨n, -, h⟩ := hi.cnt
+  split at h <;> omega
+
+theorem Inv.free_of_one {s : St} (hi : Inv s) (h1 : s.counter = 1) :
+    s.owner = none ∧ ∀ g, ¬ Ann s g := by
+  obtain ⟨n, hc, h⟩ := hi.cnt
+  split at h
+  · next ho =>
+    have : n = 0 := by omega
+    subst this
+    exact ⟨ho, Card.zero_iff.1 hc⟩
+  · omega
+
+theorem annK_some_ne {f g : Nat} (h : g ≠ f) (k : K) : annK (some f) g k = annK none g k := by
+  cases k <;> simp [annK]; omega
+
+local macro "mx_close" : tactic =>
+  `(tactic| (intros; (simp only [k_upd, K.isHold, K.isWake, K.isPop] at *) <;> grind))
+
+/-- uncontended acquire: `fetch_sub` that saw 1, or successful trylock CAS -/
+theorem Inv.acquire {s : St} (hi : Inv s) {f : Nat} {p : Pc} (hp : p.k = .hold)
+    (hpc : (s.pc f).k = .other) (h1 : s.counter = 1) :
+    Inv { s with counter := s.counter - 1, owner := some f, pc := upd s.pc f p } := by
+  obtain ⟨hown, hfree⟩ := hi.free_of_one h1
+  have hann : ∀ g, ¬ Ann { s with counter := s.counter - 1, owner := some f, pc := upd s.pc f p } g := by
+    intro g
+    have := hfree g
+    simp only [Ann, k_upd] at this ⊢
+    split
+    · simp [hp, annK]
+    · next hg => rw [annK_some_ne hg, ← hown]; exact this
+  obtain ⟨a1, a2, a3, a4, a5, a6, a7, a8, a9, a10, a11, a11', a12, a13, a14, a15, a16, a17, a18⟩ := hi
+  constructor
+  · mx_close
+  · mx_close
+  · mx_close
+  · mx_close
+  · mx_close
+  · mx_close
+  · mx_close
+  · mx_close
+  · mx_close
+  · mx_close
+  · mx_close
+  · mx_close
+  · mx_close
+  · exact ⟨0, Card.zero_iff.2 hann, by simp [h1]⟩
+  · intro g hg
+    simp only [k_upd] at hg
+    split at hg
+    · simp [hp, K.isWake] at hg
+    · obtain ⟨x, hx⟩ := a14 g hg; exact absurd hx (hfree x)
+  · intro g hg; exact absurd hg (hann g)
+  · mx_close
+  · mx_close
+  · mx_close
+
+/-- contended `fetch_sub`: the locker announces itself -/
+theorem Inv.announce {s : St} (hi : Inv s) {f : Nat} {p : Pc} (hp : p.k = .pre)
+    (hpc : (s.pc f).k = .other) (h1 : s.counter ≠ 1) :
+    Inv { s with counter := s.counter - 1, pc := upd s.pc f p } := by
+  have hnf : ¬ Ann s f := by simp [Ann, hpc, annK]
+  have hann : ∀ g, Ann { s with counter := s.counter - 1, pc := upd s.pc f p } g ↔ (g = f ∨ Ann s g) := by
+    intro g
+    simp only [Ann, k_upd]
+    split
+    · next hg => simp [hp, annK, hg]
+    · next hg => simp [hg]
+  obtain ⟨n, hc, hn⟩ := hi.cnt
+  obtain ⟨a1, a2, a3, a4, a5, a6, a7, a8, a9, a10, a11, a11', a12, a13, a14, a15, a16, a17, a18⟩ := hi
+  constructor
+  · mx_close
+  · mx_close
+  · mx_close
+  · mx_close
+  · mx_close
+  · mx_close
+  · mx_close
+  · mx_close
+  · mx_close
+  · mx_close
+  · mx_close
+  · mx_close
+  · mx_close
+  · refine ⟨n + 1, hc.insert f hnf hann, ?_⟩
+    simp only []; split at hn <;> simp_all <;> omega
+  · intro g hg
+    exact ⟨f, (hann f).2 (Or.inl rfl)⟩
+  · intro g _
+    apply free_form; intro ho hw
+    have hw' : ∀ g, ¬ (s.pc g).k.isWake := by
+      intro g; have := hw g; simp only [k_upd] at this; split at this
+      · next hg => subst hg; simp [hpc, K.isWake]
+      · exact this
+    have h0 : n = 0 := by
+      cases n with
+      | zero => rfl
+      | succ m =>
+        obtain ⟨x, hx⟩ := hc.pos (Nat.succ_pos m)
+        exact (a15 x hx).elim (fun h => absurd ho h) (fun ⟨f', hf'⟩ => absurd hf' (hw' f'))
+    simp only [] at ho
+    subst h0; simp [ho] at hn; exact h1 hn
+  · mx_close
+  · mx_close
+  · mx_close
+
+theorem getElem?_snoc_of_some {α : Type} {l : List α} {i : Nat} {a : α} (x : α)
+    (h : l[i]? = some a) : (l ++ [x])[i]? = some a := by
+  have hi : i < l.length := by
+    apply Classical.byContradiction; intro hn
+    rw [List.getElem?_eq_none (by omega)] at h; cases h
+  rw [List.getElem?_append_left hi]; exact h
+
+theorem getElem?_snoc_cases {α : Type} {l : List α} {i : Nat} {a x : α}
+    (h : (l ++ [x])[i]? = some a) : l[i]? = some a ∨ (i = l.length ∧ a = x) := by
+  rw [List.getElem?_append] at h
+  split at h
+  · exact Or.inl h
+  · next hn =>
+    right
+    have : i - l.length = 0 := by
+      apply Classical.byContradiction; intro h0
+      rw [List.getElem?_eq_none (by simp; omega)] at h; cases h
+    rw [this] at h; simp at h
+    exact ⟨by omega, h.symm⟩
+
+/-- `xchg(&tail)`: the waiter's entry is appended to the ghost order -/
+theorem Inv.enqueue {s : St} (hi : Inv s) {f m : Nat} {p : Pc} (hp : p.k = .xchgd m s.order.length)
+    (hpc : (s.pc f).k = .pre) :
+    Inv { s with order := s.order ++ [(m, f)], pc := upd s.pc f p } := by
+  have hann : Ann { s with order := s.order ++ [(m, f)], pc := upd s.pc f p } = Ann s := by
+    funext g
+    simp only [Ann, k_upd]
+    split
+    · next hg => subst hg; simp [hp, hpc, annK]
+    · rfl
+  obtain ⟨a1, a2, a3, a4, a5, a6, a7, a8, a9, a10, a11, a11', a12, a13, a14, a15, a16, a17, a18⟩ := hi
+  constructor
+  · mx_close
+  · mx_close
+  · mx_close
+  · mx_close
+  · mx_close
+  · mx_close
+  · simp only [List.length_append, List.length_singleton]; omega
+  · simp only [List.length_append, List.length_singleton]; intro i hi; exact a8 i (by omega)
+  · intro g m' i hg
+    simp only [k_upd] at hg
+    split at hg
+    · next hgf =>
+      subst hgf; rw [hp] at hg; cases hg
+      exact ⟨by simp, a7, a8 _ (Nat.le_refl _)⟩
+    · obtain ⟨h1, h2, h3⟩ := a9 g m' i hg
+      exact ⟨getElem?_snoc_of_some _ h1, h2, h3⟩
+  · intro g hg ho
+    simp only [k_upd] at hg
+    split at hg
+    · rw [hp] at hg; cases hg
+    · obtain ⟨i, n, h1, h2, h3⟩ := a10 g hg ho
+      exact ⟨i, n, h1, getElem?_snoc_of_some _ h2, h3⟩
+  · intro i n g hi hg
+    simp only [k_upd]
+    rcases getElem?_snoc_cases hg with h | ⟨h1, h2⟩
+    · have := a11 i n g hi h
+      split
+      · next hgf => subst hgf; rw [hpc] at this; simp at this
+      · exact this
+    · cases h2; subst h1; simp [hp]
+  · intro i j n n' g hi hj h1 h2
+    have key : ∀ i n, s.hd ≤ i → s.order[i]? = some (n, g) → g ≠ f := by
+      intro i0 n0 hi0 h0 hgf; rw [hgf] at h0
+      have := a11 i0 n0 f hi0 h0; rw [hpc] at this; simp at this
+    rcases getElem?_snoc_cases h1 with h1 | ⟨h1, e1⟩ <;>
+      rcases getElem?_snoc_cases h2 with h2 | ⟨h2, e2⟩
+    · exact a11' i j n n' g hi hj h1 h2
+    · cases e2; exact absurd rfl (key i n hi h1)
+    · cases e1; exact absurd rfl (key j n' hj h2)
+    · omega
+  · intro g hg
+    simp only [k_upd] at hg
+    split at hg
+    · rw [hp] at hg; cases hg
+    · have := a12 g hg
+      simp only [List.length_append, List.length_singleton]; exact ⟨by omega, this.2⟩
+  · rw [hann]; exact a13
+  · rw [hann]; mx_close
+  · rw [hann]; mx_close
+  · mx_close
+  · mx_close
+  · mx_close
+
+/-- `prev->next = node`: the entry becomes visible to the consumer, the waiter parks -/
+theorem Inv.link {s : St} (hi : Inv s) {f m i : Nat} {p : Pc} (hp : p.k = .parked)
+    (hpc : (s.pc f).k = .xchgd m i) :
+    Inv { s with linked := upd s.linked i true, pc := upd s.pc f p } := by
+  have hno : s.owner ≠ some f := by
+    intro h; have := hi.owner_hold f h; simp [hpc, K.isHold] at this
+  have hann : Ann { s with linked := upd s.linked i true, pc := upd s.pc f p } = Ann s := by
+    funext g
+    simp only [Ann, k_upd]
+    split
+    · next hg => subst hg; simp [hp, hpc, annK, hno]
+    · rfl
+  obtain ⟨a1, a2, a3, a4, a5, a6, a7, a8, a9, a10, a11, a11', a12, a13, a14, a15, a16, a17, a18⟩ := hi
+  constructor
+  · mx_close
+  · mx_close
+  · mx_close
+  · mx_close
+  · mx_close
+  · mx_close
+  · mx_close
+  · intros; simp only [k_upd, upd] at *; grind
+  · intros; simp only [k_upd, upd] at *; grind
+  · intros; simp only [k_upd, upd] at *; grind
+  · intros; simp only [k_upd, upd] at *; grind
+  · intros; simp only [upd] at *; grind
+  · intros; simp only [k_upd, upd] at *; grind
+  · rw [hann]; exact a13
+  · rw [hann]; mx_close
+  · rw [hann]; mx_close
+  · mx_close
+  · mx_close
+  · mx_close
+
+/-- a handed-off waiter resumes and returns from `lock` -/
+theorem Inv.resume {s : St} (hi : Inv s) {f : Nat} {p : Pc} (hp : p.k = .held)
+    (hpc : (s.pc f).k = .parked) (ho : s.owner = some f) (hw : s.waking = false) :
+    Inv { s with pc := upd s.pc f p } := by
+  have hann : Ann { s with pc := upd s.pc f p } = Ann s := by
+    funext g
+    simp only [Ann, k_upd]
+    split
+    · next hg => subst hg; simp [hp, hpc, annK, ho]
+    · rfl
+  obtain ⟨a1, a2, a3, a4, a5, a6, a7, a8, a9, a10, a11, a11', a12, a13, a14, a15, a16, a17, a18⟩ := hi
+  constructor
+  · mx_close
+  · mx_close
+  · mx_close
+  · mx_close
+  · mx_close
+  · mx_close
+  · mx_close
+  · mx_close
+  · mx_close
+  · mx_close
+  · mx_close
+  · mx_close
+  · mx_close
+  · rw [hann]; exact a13
+  · rw [hann]; mx_close
+  · rw [hann]; mx_close
+  · mx_close
+  · mx_close
+  · mx_close
+
+/-- moves between `hold` and `held` (return from lock/trylock, call of unlock) -/
+theorem Inv.holdMove {s : St} (hi : Inv s) {f : Nat} {p : Pc} (hp : p.k = .hold ∨ p.k = .held)
+    (hpc : (s.pc f).k = .hold ∨ (s.pc f).k = .held) (hcs : f ∈ s.inCs → p.k = .held) :
+    Inv { s with pc := upd s.pc f p } := by
+  have hann : Ann { s with pc := upd s.pc f p } = Ann s := by
+    funext g
+    simp only [Ann, k_upd]
+    split
+    · next hg =>
+      subst hg
+      have h1 : ∀ k : K, (k = .hold ∨ k = .held) → annK s.owner g k = false := by
+        intro k hk; rcases hk with hk | hk <;> subst hk <;> simp [annK]
+      rw [h1 _ hp, h1 _ hpc]
+    · rfl
+  obtain ⟨a1, a2, a3, a4, a5, a6, a7, a8, a9, a10, a11, a11', a12, a13, a14, a15, a16, a17, a18⟩ := hi
+  constructor
+  · mx_close
+  · mx_close
+  · mx_close
+  · mx_close
+  · mx_close
+  · mx_close
+  · mx_close
+  · mx_close
+  · mx_close
+  · mx_close
+  · mx_close
+  · mx_close
+  · mx_close
+  · rw [hann]; exact a13
+  · rw [hann]; mx_close
+  · rw [hann]; mx_close
+  · mx_close
+  · mx_close
+  · mx_close
+
+/-- the release `fetch_add`: `p` is `unlockDone` (nobody announced) or `wakeLoop` -/
+theorem Inv.release {s : St} (hi : Inv s) {f : Nat} {p : Pc} (hpc : (s.pc f).k = .hold)
+    (hp : if s.counter + 1 = 1 then p.k = .other else p.k = .w) :
+    Inv { s with counter := s.counter + 1, owner := none, pc := upd s.pc f p } := by
+  have ho : s.owner = some f := hi.hold_owner f (by simp [hpc, K.isHold])
+  have hp' : p.k = .other ∨ p.k = .w := by split at hp <;> simp [hp]
+  have hann : Ann { s with counter := s.counter + 1, owner := none, pc := upd s.pc f p } = Ann s := by
+    funext g
+    simp only [Ann, k_upd]
+    split
+    · next hg =>
+      subst hg
+      rcases hp' with h | h <;> simp [h, hpc, annK]
+    · next hg => rw [ho, annK_some_ne hg]
+  obtain ⟨n, hc, hn⟩ := hi.cnt
+  rw [ho] at hn; simp at hn
+  have hw : s.waking = false := by
+    cases h : s.waking with
+    | false => rfl
+    | true =>
+      obtain ⟨g, h1, h2⟩ := hi.waking_owner h
+      rw [ho] at h1; cases h1; rw [hpc] at h2; cases h2
+  have hnw : ∀ g, ¬ (s.pc g).k.isWake := by
+    intro g h
+    have := (hi.wake_free g h).1; rw [ho] at this; cases this
+  obtain ⟨a1, a2, a3, a4, a5, a6, a7, a8, a9, a10, a11, a11', a12, a13, a14, a15, a16, a17, a18⟩ := hi
+  constructor
+  · mx_close
+  · mx_close
+  · mx_close
+  · mx_close
+  · mx_close
+  · mx_close
+  · mx_close
+  · mx_close
+  · mx_close
+  · intro g hg _
+    simp only [k_upd] at hg; split at hg
+    · rcases hp' with h | h <;> rw [h] at hg <;> cases hg
+    · next hgf => exact a10 g hg (by rw [ho]; intro h; cases h; exact hgf rfl)
+  · mx_close
+  · mx_close
+  · mx_close
+  · rw [hann]; exact ⟨n, hc, by simp only []; simp; omega⟩
+  · rw [hann]
+    intro g hg
+    simp only [k_upd] at hg
+    split at hg
+    · split at hp
+      · rw [hp] at hg; simp [K.isWake] at hg
+      · exact hc.pos (by omega)
+    · exact absurd hg (hnw g)
+  · rw [hann]
+    intro g hg
+    split at hp
+    · have : n = 0 := by omega
+      subst this; exact absurd hg (Card.zero_iff.1 hc g)
+    · right; exact ⟨f, by simp [k_upd, hp, K.isWake]⟩
+  · mx_close
+  · mx_close
+  · mx_close
+
+/-- `trypop` saw a linked successor of the stub -/
+theorem Inv.gotNext {s : St} (hi : Inv s) {f : Nat} {p : Pc} (hp : p.k = .wNext)
+    (hpc : (s.pc f).k = .w) (hq : s.hd < s.order.length ∧ s.linked s.hd = true) :
+    Inv { s with pc := upd s.pc f p } := by
+  have hann : Ann { s with pc := upd s.pc f p } = Ann s := by
+    funext g
+    simp only [Ann, k_upd]
+    split
+    · next hg => subst hg; simp [hp, hpc, annK]
+    · rfl
+  obtain ⟨a1, a2, a3, a4, a5, a6, a7, a8, a9, a10, a11, a11', a12, a13, a14, a15, a16, a17, a18⟩ := hi
+  constructor
+  · mx_close
+  · mx_close
+  · mx_close
+  · mx_close
+  · mx_close
+  · mx_close
+  · mx_close
+  · mx_close
+  · mx_close
+  · mx_close
+  · mx_close
+  · mx_close
+  · mx_close
+  · rw [hann]; exact a13
+  · rw [hann]; mx_close
+  · rw [hann]; mx_close
+  · mx_close
+  · mx_close
+  · mx_close
+
+/-- facts about the entry a waker is about to pop -/
+theorem Inv.pop_target {s : St} (hi : Inv s) {f n g : Nat} (hpc : (s.pc f).k = .wNext)
+    (hq : s.order[s.hd]? = some (n, g)) :
+    s.owner = none ∧ s.waking = false ∧ (s.pc g).k = .parked ∧ Ann s g ∧ g ≠ f := by
+  obtain ⟨ho, hw⟩ := hi.wake_free f (Or.inr hpc)
+  have hl := (hi.w_next f hpc).2
+  have hg : (s.pc g).k = .parked := by
+    rcases hi.q_ent s.hd n g (Nat.le_refl _) hq with h | h
+    · have := (hi.q_xchgd g n s.hd h).2.2; rw [hl] at this; cases this
+    · exact h.1
+  refine ⟨ho, hw, hg, by simp [Ann, hg, annK, ho], ?_⟩
+  intro h; subst h; rw [hpc] at hg; cases hg
+
+/-- `head := next`: the pop takes effect, the oldest waiter becomes the owner -/
+theorem Inv.pop {s : St} (hi : Inv s) {f n g x : Nat} {p : Pc} (hp : p.k = .post)
+    (hpc : (s.pc f).k = .wNext) (hq : s.order[s.hd]? = some (n, g)) :
+    Inv { s with headNode := x, hd := s.hd + 1, owner := some g, waking := true,
+                 pc := upd s.pc f p } := by
+  obtain ⟨ho, hw, hg, hag, hgf⟩ := hi.pop_target hpc hq
+  have hann : ∀ y,
+      Ann { s with headNode := x, hd := s.hd + 1, owner := some g, waking := true,
+                   pc := upd s.pc f p } y ↔ (y ≠ g ∧ Ann s y) := by
+    intro y
+    simp only [Ann, k_upd]
+    split
+    · next hy => subst hy; simp [hp, hpc, annK]
+    · next hy =>
+      by_cases hyg : y = g
+      · subst hyg; simp [hg, annK]
+      · rw [annK_some_ne hyg, ← ho]; simp [hyg]
+  obtain ⟨c, hc, hn⟩ := hi.cnt
+  rw [ho] at hn; simp at hn
+  obtain ⟨hc1, hc'⟩ := hc.erase g hag hann
+  have hlen := (hi.w_next f hpc).1
+  obtain ⟨a1, a2, a3, a4, a5, a6, a7, a8, a9, a10, a11, a11', a12, a13, a14, a15, a16, a17, a18⟩ := hi
+  constructor
+  · mx_close
+  · mx_close
+  · mx_close
+  · mx_close
+  · mx_close
+  · mx_close
+  · mx_close
+  · mx_close
+  · mx_close
+  · mx_close
+  · mx_close
+  · mx_close
+  · mx_close
+  · exact ⟨c - 1, hc', by simp only []; simp; omega⟩
+  · mx_close
+  · intro y _; left; simp
+  · mx_close
+  · mx_close
+  · mx_close
+
+/-- the waker's last access to the woken fiber: it will now call `fiber_manager_schedule` -/
+theorem Inv.wakeDone {s : St} (hi : Inv s) {f : Nat} {p : Pc} (hp : p.k = .other)
+    (hpc : (s.pc f).k = .post) :
+    Inv { s with waking := false, pc := upd s.pc f p } := by
+  have hann : Ann { s with waking := false, pc := upd s.pc f p } = Ann s := by
+    funext g
+    simp only [Ann, k_upd]
+    split
+    · next hg => subst hg; simp [hp, hpc, annK]
+    · rfl
+  obtain ⟨a1, a2, a3, a4, a5, a6, a7, a8, a9, a10, a11, a11', a12, a13, a14, a15, a16, a17, a18⟩ := hi
+  constructor
+  · mx_close
+  · mx_close
+  · mx_close
+  · mx_close
+  · mx_close
+  · mx_close
+  · mx_close
+  · mx_close
+  · mx_close
+  · mx_close
+  · mx_close
+  · mx_close
+  · mx_close
+  · rw [hann]; exact a13
+  · rw [hann]; mx_close
+  · rw [hann]; mx_close
+  · mx_close
+  · mx_close
+  · mx_close
+
+/-- harness notes `cs enter` / `cs exit` -/
+theorem Inv.csFrame {s : St} (hi : Inv s) {l : List Nat} {sn : Nat → Nat} {d : Nat}
+    (h1 : ∀ f, f ∈ l → (s.pc f).k = .held) (h2 : l.Nodup) (h3 : ∀ f, f ∈ l → sn f = d) :
+    Inv { s with inCs := l, seen := sn, data := d } :=
+  { hi with cs_held := h1, cs_nodup := h2, cs_seen := h3 }
+
+/-- a step inside one pc class that may also touch `ndata` / `fnode` -/
+local macro "mx_frame" h:term : tactic =>
+  `(tactic| exact Inv.frame ‹Inv _› (k_upd_same (by rw [$h]; rfl)) rfl rfl rfl rfl rfl rfl rfl rfl rfl)
+
+theorem headNext_ne_zero {s : St} (h : headNext s ≠ 0) :
+    s.hd < s.order.length ∧ s.linked s.hd = true := by
+  unfold headNext at h
+  split at h
+  · next n g heq =>
+    have hlt : s.hd < s.order.length := by
+      apply Classical.byContradiction; intro hn
+      rw [List.getElem?_eq_none (by omega)] at heq; cases heq
+    refine ⟨hlt, ?_⟩
+    cases hl : s.linked s.hd with
+    | true => rfl
+    | false => simp [hl] at h
+  · simp at h
+
+theorem inv_step_lock {s s' : St} (hi : Inv s) :
+    ∀ e, (∃ f, e = Ev.callLock f) ∨ (∃ f o, e = Ev.fsub f o) ∨ (∃ f, e = Ev.retLock f) ∨
+      (∃ f a b, e = Ev.xchgTail f a b) ∨ (∃ f a b, e = Ev.wNext f a b) ∨ (∃ f a b, e = Ev.rNode f a b) →
+    step s e = some s' → Inv s' := by
+  intro e he hs
+  rcases he with ⟨f, rfl⟩ | ⟨f, old, rfl⟩ | ⟨f, rfl⟩ | ⟨f, a, b, rfl⟩ | ⟨f, a, b, rfl⟩ | ⟨f, a, b, rfl⟩
+  · simp only [step] at hs
+    split at hs <;> simp at hs
+    next h => subst hs; mx_frame h
+  · simp only [step] at hs
+    split at hs <;> simp at hs
+    next h =>
+    obtain ⟨rfl, hs⟩ := hs
+    split at hs <;> simp at hs <;> subst hs
+    · next h1 => exact hi.acquire (p := .acquired) rfl (by rw [h]; rfl) h1
+    · next h1 => exact hi.announce (p := .lockDec s.counter) rfl (by rw [h]; rfl) h1
+  · simp only [step] at hs
+    split at hs <;> simp at hs
+    · next h => subst hs; exact hi.holdMove (p := .held) (Or.inr rfl) (Or.inl (by rw [h]; rfl)) (fun _ => rfl)
+    · next h =>
+      obtain ⟨⟨ho, hw⟩, hs⟩ := hs
+      subst hs; exact hi.resume (p := .held) rfl (by rw [h]; rfl) ho hw
+  · simp only [step] at hs
+    split at hs <;> simp at hs
+    next m h =>
+    obtain ⟨⟨rfl, rfl⟩, hs⟩ := hs
+    subst hs; exact hi.enqueue (p := .pushXchgd b (tailNode s) s.order.length) rfl (by rw [h]; rfl)
+  · simp only [step] at hs
+    split at hs <;> simp at hs
+    · next m h => obtain ⟨_, hs⟩ := hs; subst hs; mx_frame h
+    · next m q i h =>
+      obtain ⟨_, hs⟩ := hs; subst hs
+      exact hi.link (p := .parked) (m := m) rfl (by rw [h]; rfl)
+  · simp only [step] at hs
+    split at hs <;> simp at hs
+    next h => obtain ⟨_, hs⟩ := hs; subst hs; mx_frame h
 
 end LibfiberVerif.Mutex
